@@ -590,54 +590,218 @@ Proof.
   rewrite Z.eqb_refl, IH. reflexivity.
 Qed.
 
-(* outside the known class: a complete schedule without overlapping windows on one row
-   reaches, with the same acknowledgements, the state of one of the serial orders; stated on the
-   functions the harness evaluates *)
+(* ------------------------------------------------------------------ the model's serial step refines the abstract semantics *)
+Lemma is_nil_filter : forall A (f : A -> bool) l, negb (is_nil (filter f l)) = existsb f l.
+Proof.
+  induction l as [|a t IH]; [reflexivity|]. cbn [filter existsb]. destruct (f a); [reflexivity | exact IH].
+Qed.
+Lemma existsb_map' : forall A B (g : A -> B) (f : B -> bool) l, existsb f (map g l) = existsb (fun a => f (g a)) l.
+Proof. induction l as [|a t IH]; [reflexivity|]. cbn [map existsb]. rewrite IH. reflexivity. Qed.
+Lemma existsb_ext' : forall A (f g : A -> bool) l, (forall a, In a l -> f a = g a) -> existsb f l = existsb g l.
+Proof.
+  induction l as [|a t IH]; intros H; [reflexivity|]. cbn [existsb].
+  rewrite (H a (or_introl eq_refl)), IH; [reflexivity | intros; apply H; right; assumption].
+Qed.
+Lemma existsb_flat_map : forall A B (f : B -> bool) (g : A -> list B) l,
+  existsb f (flat_map g l) = existsb (fun a => existsb f (g a)) l.
+Proof. induction l as [|a t IH]; [reflexivity|]. cbn [flat_map existsb]. rewrite existsb_app, IH. reflexivity. Qed.
+Lemma existsb_andb_const : forall A (c : bool) (g : A -> bool) l,
+  existsb (fun a => c && g a) l = c && existsb g l.
+Proof.
+  induction l as [|a t IH]; cbn [existsb]; [destruct c; reflexivity|].
+  rewrite IH. destruct c; reflexivity.
+Qed.
+Lemma flat_map_map' : forall A B C (g : A -> B) (f : B -> list C) l, flat_map f (map g l) = flat_map (fun a => f (g a)) l.
+Proof. induction l as [|a t IH]; [reflexivity|]. cbn [map flat_map]. rewrite IH. reflexivity. Qed.
+Lemma flat_map_ext' : forall A B (f g : A -> list B) l, (forall a, f a = g a) -> flat_map f l = flat_map g l.
+Proof. induction l as [|a t IH]; intros H; [reflexivity|]. cbn [flat_map]. rewrite H, IH by assumption. reflexivity. Qed.
+Lemma filter_filter' : forall A (f g : A -> bool) l, filter f (filter g l) = filter (fun a => g a && f a) l.
+Proof.
+  induction l as [|a t IH]; [reflexivity|]. cbn [filter]. destruct (g a); cbn [filter andb]; rewrite IH; reflexivity.
+Qed.
+Lemma filter_ext_in' : forall A (f g : A -> bool) l, (forall a, In a l -> f a = g a) -> filter f l = filter g l.
+Proof.
+  induction l as [|a t IH]; intros H; [reflexivity|]. cbn [filter].
+  rewrite (H a (or_introl eq_refl)), IH; [reflexivity | intros; apply H; right; assumption].
+Qed.
+
+Lemma fold_delete_filter : forall L acc,
+  fold_left (fun es e => delete_edge e es) L acc
+  = filter (fun a => negb (existsb (fun e => same_key a e) L)) acc.
+Proof.
+  induction L as [|e t IH]; intros acc; cbn [fold_left existsb].
+  - cbn [negb]. induction acc as [|a u IHu]; [reflexivity|]. cbn [filter]. rewrite <- IHu. reflexivity.
+  - rewrite IH. unfold delete_edge. rewrite filter_filter'. apply filter_ext_in'. intros a _.
+    rewrite Bool.negb_orb. reflexivity.
+Qed.
+
+Lemma same_key_refl : forall a, same_key a a = true.
+Proof. intros a. unfold same_key. rewrite !N.eqb_refl. reflexivity. Qed.
+
+Lemma found_edges_key : forall d x l a, In a (edges d) ->
+  existsb (fun e => same_key a e) (get_edges l (edges_of x d)) = N.eqb (e_src a) x && N.eqb l (e_label a).
+Proof.
+  intros d x l a Ha. apply Bool.eq_iff_eq_true. rewrite existsb_exists, Bool.andb_true_iff, !N.eqb_eq. split.
+  - intros [e [He Hk]]. unfold get_edges, edges_of in He. rewrite !filter_In in He.
+    destruct He as [[_ Hs] Hl]. apply N.eqb_eq in Hs. apply N.eqb_eq in Hl.
+    unfold same_key in Hk. rewrite !Bool.andb_true_iff, !N.eqb_eq in Hk. destruct Hk as [[K1 K2] _]. split; congruence.
+  - intros [Hs Hl]. exists a. split; [|apply same_key_refl].
+    unfold get_edges, edges_of. rewrite !filter_In, !N.eqb_eq. auto.
+Qed.
+
+Lemma ref_read_effective : forall x date es op, snd (ref_read x date es op) = spec_ref_effective es op.
+Proof.
+  intros x date es op. destruct op as [l ds|l dst|l]; cbn [ref_read spec_ref_effective snd].
+  - apply is_nil_filter.
+  - destruct (edge_exists l dst es); reflexivity.
+  - unfold get_edges. apply is_nil_filter.
+Qed.
+Lemma ref_read_new : forall x date es op, snd (fst (ref_read x date es op)) = spec_new_edges x date es op.
+Proof.
+  intros x date es op. destruct op as [l ds|l dst|l]; cbn [ref_read spec_new_edges snd fst]; try reflexivity.
+  destruct (edge_exists l dst es); reflexivity.
+Qed.
+Lemma ref_read_del_key : forall d x date op a, In a (edges d) ->
+  existsb (fun e => same_key a e) (fst (fst (ref_read x date (edges_of x d) op)))
+  = N.eqb (e_src a) x &&
+    match op with
+    | RClear l' => N.eqb l' (e_label a)
+    | RSet l' dst => N.eqb l' (e_label a) && negb (edge_exists l' dst (edges_of x d))
+    | RAdd _ _ => false
+    end.
+Proof.
+  intros d x date op a Ha. destruct op as [l ds|l dst|l]; cbn [ref_read fst].
+  - cbn [existsb]. rewrite Bool.andb_false_r. reflexivity.
+  - destruct (edge_exists l dst (edges_of x d)); cbn [fst existsb negb].
+    + rewrite !Bool.andb_false_r. reflexivity.
+    + rewrite Bool.andb_true_r. apply found_edges_key, Ha.
+  - apply found_edges_key, Ha.
+Qed.
+
+Definition apply1 (m : mutation) (d : db) : db :=
+  match read d m with Some p => write p d | None => d end.
+
+(* unless the mutation is a room move that the code ignores (class 2), reading and writing with
+   nothing in between is the abstract semantics of the mutation *)
+Lemma apply1_spec : forall m d, ignored_move d m = false -> apply1 m d = spec_apply m d.
+Proof.
+  intros m d Hig. unfold apply1, read, spec_apply, ignored_move in *.
+  destruct (find_row (m_row m) d) as [old|] eqn:F; [|reflexivity].
+  assert (Hid : r_id old = m_row m) by (unfold find_row in F; apply find_some in F; apply N.eqb_eq, F).
+  set (es := edges_of (m_row m) d) in *.
+  assert (Hupd : (negb (is_nil (m_assign m)) ||
+                  existsb (fun t : list edge * list edge * bool => snd t) (map (ref_read (m_row m) (m_date m) es) (m_refs m)))
+                 = (negb (is_nil (m_assign m)) || existsb (spec_ref_effective es) (m_refs m))).
+  { f_equal. rewrite existsb_map'. apply existsb_ext'. intros op _. apply ref_read_effective. }
+  unfold write, read_view; cbn [p_node p_del p_ins rows edges]. rewrite Hupd.
+  f_equal.
+  - destruct (negb (is_nil (m_assign m)) || existsb (spec_ref_effective es) (m_refs m)) eqn:U; cbn [orb].
+    + cbn [r_id]. rewrite Hid. reflexivity.
+    + cbn [negb] in Hig. rewrite Bool.andb_true_r in Hig. rewrite Hig. reflexivity.
+  - rewrite !flat_map_map'.
+    rewrite (flat_map_ext' _ _ (fun op => snd (fst (ref_read (m_row m) (m_date m) es op)))
+                              (spec_new_edges (m_row m) (m_date m) es)) by (intros; apply ref_read_new).
+    f_equal. rewrite fold_delete_filter. apply filter_ext_in'. intros a Ha. f_equal.
+    rewrite existsb_flat_map.
+    rewrite (existsb_ext' _ _ (fun op => N.eqb (e_src a) (m_row m) &&
+               match op with
+               | RClear l' => N.eqb l' (e_label a)
+               | RSet l' dst => N.eqb l' (e_label a) && negb (edge_exists l' dst es)
+               | RAdd _ _ => false
+               end)) by (intros op _; apply ref_read_del_key, Ha).
+    rewrite existsb_andb_const. unfold label_removed. reflexivity.
+Qed.
+
+Lemma apply_apply1 : forall ms d i,
+  apply ms d i = match nth_error ms i with Some m => apply1 m d | None => d end.
+Proof. reflexivity. Qed.
+
+Lemma fold_spec_apply : forall ms pi d, moves_ok ms d pi = true ->
+  fold_left (spec_apply_i ms) pi d = fold_left (apply ms) pi d.
+Proof.
+  induction pi as [|i t IH]; intros d H; [reflexivity|]. cbn [moves_ok] in H.
+  apply Bool.andb_true_iff in H. destruct H as [H1 H2]. cbn [fold_left].
+  assert (E : spec_apply_i ms d i = apply ms d i).
+  { unfold spec_apply_i. rewrite apply_apply1. destruct (nth_error ms i) as [m|]; [|reflexivity].
+    symmetry. apply apply1_spec. apply Bool.negb_true_iff, H1. }
+  rewrite E. apply IH, H2.
+Qed.
+Lemma moves_ok_app : forall ms a b d, moves_ok ms d (a ++ b) = true -> moves_ok ms d a = true.
+Proof.
+  induction a as [|i t IH]; intros b d H; [reflexivity|]. cbn [app moves_ok] in *.
+  apply Bool.andb_true_iff in H. destruct H as [H1 H2]. rewrite H1. cbn [andb]. eapply IH, H2.
+Qed.
+
+(* --- reading the acknowledgement flags back --- *)
+Lemma combine_map_self : forall A B (g : A -> B) l, combine l (map g l) = map (fun a => (a, g a)) l.
+Proof. induction l as [|a t IH]; [reflexivity|]. cbn [map combine]. rewrite IH. reflexivity. Qed.
+Lemma flags_filter : forall (f : nat -> bool) l,
+  map fst (filter (fun p : nat * Z => Z.eqb (snd p) 1) (map (fun a => (a, zb (f a))) l)) = filter f l.
+Proof.
+  induction l as [|i t IH]; [reflexivity|]. cbn [map filter snd].
+  destruct (f i); cbn [zb Z.eqb Pos.eqb map fst]; [rewrite IH; reflexivity | exact IH].
+Qed.
+Lemma acked_of_flags : forall (f : nat -> bool) n,
+  acked_of (map (fun i => zb (f i)) (seq 0 n)) = filter f (seq 0 n).
+Proof.
+  intros f n. unfold acked_of. rewrite map_length, seq_length, combine_map_self. apply flags_filter.
+Qed.
+
+(* outside the known classes: a schedule (complete or not) without overlapping windows on one
+   row, in a case where no order ignores a room move, reaches the state that the acknowledged
+   mutations give under the abstract semantics, applied in write order; stated on the functions
+   the harness evaluates *)
 Theorem outside_known : forall d nf ms sigma b,
   known_C16 (CSched d nf ms sigma b) = [] ->
-  complete (length ms) sigma = true ->
   run_sched d ms sigma <> None ->
   spec_C16 (CSched d nf ms sigma b) (run_C16 (CSched d nf ms sigma b)) = true.
 Proof.
-  intros d nf ms sigma b Hk Hc Hr.
-  cbn [known_C16] in Hk. destruct (windows_ok ms [] sigma) eqn:Hw; [|discriminate]. clear Hk.
+  intros d nf ms sigma b Hk Hr.
+  cbn [known_C16] in Hk. apply app_eq_nil in Hk. destruct Hk as [Hk1 Hk2].
+  destruct (windows_ok ms [] sigma) eqn:Hw; [|discriminate]. clear Hk1.
+  destruct (forallb (moves_ok ms d) (perms (seq 0 (length ms)))) eqn:Hm; [|discriminate]. clear Hk2.
+  rewrite forallb_forall in Hm.
   destruct (run_sched d ms sigma) as [s|] eqn:Hrun; [|congruence]. clear Hr.
   unfold spec_C16, run_C16.
   rewrite split_join by (pose proof (join_length (run_chunks (CSched d nf ms sigma b))); lia).
-  cbn [run_chunks]. rewrite Hrun. cbn [spec_chunks]. rewrite map_length, Nat.eqb_refl. cbn [andb].
+  cbn [run_chunks]. rewrite Hrun. cbn [spec_chunks].
   pose proof (serial_ok d ms sigma s Hrun Hw) as Hdb.
   unfold run_sched in Hrun.
   pose proof (run_inv2 ms d sigma (init d) s (inv2_init ms d) Hrun) as I2.
-  destruct I2 as [_ _ Ina Inf _ _ Iaf _ Iha Ihf].
-  set (pi := s_acked s ++ s_failed s).
-  assert (Hperm : Permutation (seq 0 (length ms)) pi).
-  { apply NoDup_Permutation; [apply seq_NoDup | apply nodup_app2; assumption |].
-    intros i. split; intros Hi.
-    - apply in_seq in Hi. apply in_or_app.
-      eapply run_W; [exact Hrun | eapply complete_W; [exact Hc | lia]].
-    - apply in_seq. cbn. split; [lia|]. apply nth_error_Some.
-      apply in_app_or in Hi. destruct Hi as [Hi|Hi].
-      + specialize (Iha i Hi). unfold has_row in Iha. destruct (nth_error ms i); [discriminate | discriminate].
-      + apply Ihf, Hi. }
-  assert (Hnd : NoDup pi) by (apply nodup_app2; assumption).
-  destruct (serial_run ms d pi d [] [] eq_refl Hnd) as [s' [Hs' Hacc]].
-  { intros i Hi. split; [intros []|]. split; [intros []|].
-    apply nth_error_Some. eapply Permutation_in in Hi; [|apply Permutation_sym, Hperm].
-    apply in_seq in Hi. lia. }
-  cbn [app] in Hacc. fold (init d) in Hs'.
-  assert (Hacc' : s_acked s' = s_acked s).
-  { rewrite Hacc. unfold pi. rewrite filter_app, filter_all, filter_none, app_nil_r; auto.
-    intros i Hi. apply Ihf, Hi. }
-  assert (Hdb' : s_db s' = s_db s).
-  { rewrite (serial_ok d ms (serial_sched pi) s' Hs' (windows_ok_serial ms pi)), Hacc', <- Hdb. reflexivity. }
-  apply existsb_exists. exists (outcome (length ms) nf s). split; [|apply zlist_eqb_refl].
-  apply in_map_iff. exists pi. split; [|apply perms_complete, Hperm].
-  unfold serial_outcome, run_sched. rewrite Hs'. unfold outcome. rewrite Hacc', Hdb'. reflexivity.
+  destruct I2 as [_ _ Ina _ _ _ _ _ Iha _].
+  set (n := length ms) in *.
+  set (flags := map (fun i => zb (memn i (s_acked s))) (seq 0 n)).
+  assert (Hlen : length flags = n) by (unfold flags; rewrite map_length, seq_length; reflexivity).
+  unfold outcome. fold flags.
+  assert (Hf : firstn n (flags ++ obs_db nf (s_db s)) = flags) by (rewrite <- Hlen; apply firstn_len_app).
+  assert (Hs : skipn n (flags ++ obs_db nf (s_db s)) = obs_db nf (s_db s)) by (rewrite <- Hlen; apply skipn_len_app).
+  rewrite Hf, Hs, Hlen, Nat.eqb_refl. cbn [andb].
+  unfold flags. rewrite acked_of_flags.
+  assert (Hlt : forall i, In i (s_acked s) -> (i < n)%nat).
+  { intros i Hi. specialize (Iha i Hi). unfold has_row in Iha.
+    apply nth_error_Some. destruct (nth_error ms i); [discriminate | discriminate]. }
+  assert (HP : Permutation (filter (fun i => memn i (s_acked s)) (seq 0 n)) (s_acked s)).
+  { apply NoDup_Permutation; [apply NoDup_filter, seq_NoDup | assumption |].
+    intros i. rewrite filter_In, in_seq, memn_In. split; [tauto|]. intros Hi. pose proof (Hlt i Hi). split; [lia | assumption]. }
+  (* an order of all mutations that starts with the write order *)
+  set (rest := filter (fun i => negb (memn i (s_acked s))) (seq 0 n)).
+  assert (HPall : Permutation (seq 0 n) (s_acked s ++ rest)).
+  { apply NoDup_Permutation; [apply seq_NoDup | |].
+    - apply nodup_app2; [assumption | apply NoDup_filter, seq_NoDup |].
+      intros i Hi Hr. unfold rest in Hr. apply filter_In in Hr. destruct Hr as [_ Hr].
+      apply Bool.negb_true_iff, memn_false in Hr. contradiction.
+    - intros i. rewrite in_app_iff. unfold rest. rewrite filter_In, in_seq, Bool.negb_true_iff, memn_false. split.
+      + intros Hi. destruct (memn i (s_acked s)) eqn:M; [left; apply memn_In, M | right; split; [lia | apply memn_false, M]].
+      + intros [Hi|[Hi _]]; [specialize (Hlt i Hi); lia | lia]. }
+  assert (Hmo : moves_ok ms d (s_acked s) = true).
+  { eapply moves_ok_app. apply Hm. apply perms_complete, HPall. }
+  apply existsb_exists. exists (s_acked s). split; [apply perms_complete, HP|].
+  rewrite (fold_spec_apply ms (s_acked s) d Hmo), <- Hdb. apply zlist_eqb_refl.
 Qed.
 
 (* ------------------------------------------------------------------ refutation witnesses (closed terms) *)
 Definition wit_row : row :=
-  {| r_id := 1%N; r_room := Some 1%N; r_mdate := 0; r_fields := [(0%N, 1); (1%N, 2)] |}.
+  {| r_id := 1%N; r_room := Some 1%N; r_mdate := 0; r_fields := [(0%N, 1); (1%N, 2); (2%N, 90); (3%N, 12)] |}.
 Definition wit_db : db :=
   {| rows := [wit_row]; edges := [mk_edge 1%N 0%N 0%N 0; mk_edge 1%N 1%N 0%N 0] |}.
 Definition mut (room : option N) (date : Z) (a : list (N * Z)) (r : list refop) : mutation :=
@@ -656,13 +820,13 @@ Ltac two_orders H :=
 (* m1 assigns field 0, m2 assigns field 1 of one row: both are acknowledged, the final row has
    m2's field 1 and the OLD field 0; no serial order gives that state *)
 Lemma refuted_fields :
-  let c := CSched wit_db 3%N wit_fields wit_sigma false in
+  let c := CSched wit_db 4%N wit_fields wit_sigma false in
   known_C16 c = [1] /\ complete 2 wit_sigma = true /\
   (exists s, run_sched wit_db wit_fields wit_sigma = Some s /\ s_acked s = [0; 1]%nat /\
      (exists r, find_row 1%N (s_db s) = Some r /\
                 get_field 0%N (r_fields r) = Some 1 /\ get_field 1%N (r_fields r) = Some 22) /\
      (forall pi, Permutation [0; 1]%nat pi ->
-                 obs_db 3%N (fold_left (apply wit_fields) pi wit_db) <> obs_db 3%N (s_db s))) /\
+                 obs_db 4%N (fold_left (spec_apply_i wit_fields) pi wit_db) <> obs_db 4%N (s_db s))) /\
   spec_C16 c (run_C16 c) = false.
 Proof.
   cbv zeta. split; [vm_compute; reflexivity|]. split; [vm_compute; reflexivity|]. split; [|vm_compute; reflexivity].
@@ -674,12 +838,12 @@ Qed.
 (* two replacements of a single-valued reference (owner:{id:t1} and owner:{id:t2}): both
    acknowledged, the row ends with TWO owners; every serial order leaves one *)
 Lemma refuted_reference :
-  let c := CSched wit_db 3%N wit_refs wit_sigma false in
+  let c := CSched wit_db 4%N wit_refs wit_sigma false in
   known_C16 c = [1] /\ complete 2 wit_sigma = true /\
   (exists s, run_sched wit_db wit_refs wit_sigma = Some s /\ s_acked s = [0; 1]%nat /\
      length (get_edges 1%N (edges_of 1%N (s_db s))) = 2%nat /\
      (forall pi, Permutation [0; 1]%nat pi ->
-                 length (get_edges 1%N (edges_of 1%N (fold_left (apply wit_refs) pi wit_db))) = 1%nat)) /\
+                 length (get_edges 1%N (edges_of 1%N (fold_left (spec_apply_i wit_refs) pi wit_db))) = 1%nat)) /\
   spec_C16 c (run_C16 c) = false.
 Proof.
   cbv zeta. split; [vm_compute; reflexivity|]. split; [vm_compute; reflexivity|]. split; [|vm_compute; reflexivity].
@@ -690,12 +854,12 @@ Qed.
 (* a move to room 2 (with an assignment) racing a field update: both acknowledged, the row is
    still in room 1 and the moved mutation's assignment is gone *)
 Lemma refuted_room_move :
-  let c := CSched wit_db 3%N wit_room wit_sigma false in
+  let c := CSched wit_db 4%N wit_room wit_sigma false in
   known_C16 c = [1] /\ complete 2 wit_sigma = true /\
   (exists s, run_sched wit_db wit_room wit_sigma = Some s /\ s_acked s = [0; 1]%nat /\
      (exists r, find_row 1%N (s_db s) = Some r /\ r_room r = Some 1%N /\ get_field 0%N (r_fields r) = Some 1) /\
      (forall pi, Permutation [0; 1]%nat pi ->
-                 exists r, find_row 1%N (fold_left (apply wit_room) pi wit_db) = Some r /\ r_room r = Some 2%N)) /\
+                 exists r, find_row 1%N (fold_left (spec_apply_i wit_room) pi wit_db) = Some r /\ r_room r = Some 2%N)) /\
   spec_C16 c (run_C16 c) = false.
 Proof.
   cbv zeta. split; [vm_compute; reflexivity|]. split; [vm_compute; reflexivity|]. split; [|vm_compute; reflexivity].
@@ -717,10 +881,10 @@ Definition nv_ms : list mutation :=
 Definition nv_sigma : list ev := [R 0; R 1; V 1; V 0; W 1; W 0; R 2; V 2; W 2]%nat.
 Lemma nonvacuous :
   let c := CSched nv_db 3%N nv_ms nv_sigma false in
-  known_C16 c = [] /\ complete (length nv_ms) nv_sigma = true /\ run_sched nv_db nv_ms nv_sigma <> None /\
+  known_C16 c = [] /\ run_sched nv_db nv_ms nv_sigma <> None /\
   windows_ok nv_ms [] [R 0; R 2; V 0; W 0; V 2; W 2]%nat = false.
 Proof.
-  cbv zeta. split; [vm_compute; reflexivity|]. split; [vm_compute; reflexivity|].
+  cbv zeta. split; [vm_compute; reflexivity|].
   split; [vm_compute; discriminate | vm_compute; reflexivity].
 Qed.
 
@@ -728,7 +892,7 @@ Qed.
 Definition full_statement : Prop :=
   forall d ms sigma s,
     run_sched d ms sigma = Some s -> complete (length ms) sigma = true ->
-    exists pi, Permutation (s_acked s) pi /\ s_db s = fold_left (apply ms) pi d.
+    exists pi, Permutation (s_acked s) pi /\ s_db s = fold_left (spec_apply_i ms) pi d.
 
 Lemma full_refuted : ~ full_statement.
 Proof.
@@ -742,4 +906,31 @@ Lemma other_rows_frame : forall d m mo p,
 Proof.
   intros d m mo p Hr Hne. destruct (read_wf d mo p Hr) as [Hwf Hrow].
   apply read_write_frame; [assumption | congruence].
+Qed.
+
+(* class 2, closed witness: a strictly sequential schedule; the first mutation only names room 2 *)
+Definition wit_room_only : list mutation := [mut (Some 2%N) 1000 [] []; mut None 2000 [(1%N, 22)] []].
+Definition seq_sigma : list ev := [R 0; V 0; W 0; R 1; V 1; W 1]%nat.
+Lemma refuted_room_only :
+  let c := CSched wit_db 4%N wit_room_only seq_sigma false in
+  known_C16 c = [2] /\ windows_ok wit_room_only [] seq_sigma = true /\
+  (exists s, run_sched wit_db wit_room_only seq_sigma = Some s /\ s_acked s = [0; 1]%nat /\
+     (exists r, find_row 1%N (s_db s) = Some r /\ r_room r = Some 1%N) /\
+     (forall pi, Permutation [0; 1]%nat pi ->
+                 exists r, find_row 1%N (fold_left (spec_apply_i wit_room_only) pi wit_db) = Some r /\ r_room r = Some 2%N)) /\
+  spec_C16 c (run_C16 c) = false.
+Proof.
+  cbv zeta. split; [vm_compute; reflexivity|]. split; [vm_compute; reflexivity|]. split; [|vm_compute; reflexivity].
+  eexists. split; [vm_compute; reflexivity|]. split; [reflexivity|]. split.
+  - eexists. split; [vm_compute; reflexivity|]. reflexivity.
+  - intros pi HP. apply perms_complete in HP. cbn in HP.
+    destruct HP as [<-|[<-|[]]]; eexists; (split; [vm_compute; reflexivity | reflexivity]).
+Qed.
+
+(* the serial theorem, against the abstract semantics *)
+Lemma serial_spec : forall d ms sigma s,
+  run_sched d ms sigma = Some s -> windows_ok ms [] sigma = true -> moves_ok ms d (s_acked s) = true ->
+  s_db s = fold_left (spec_apply_i ms) (s_acked s) d.
+Proof.
+  intros d ms sigma s Hr Hw Hm. rewrite (fold_spec_apply ms (s_acked s) d Hm). eapply serial_ok; eauto.
 Qed.
